@@ -312,8 +312,12 @@ def u1_query_construction(run):
         data = [v for k, v in zip(d.keys, d.values)
                 if isinstance(k, ast.Constant) and k.value == "data"] \
             if isinstance(d, ast.Dict) else []
-        run.check(len(data) == 1 and unparse(data[0]) == "urlencode(part)",
-                  "U1", f.qual + "::data", "form body is urlencode(part)",
+        porg = Origins(fcfg)
+        atoms = porg.of(data[0], r.id) if len(data) == 1 else set()
+        run.check(len(data) == 1 and atoms and
+                  all(a.kind == "call" and a.text == "urlencode"
+                      for a in atoms),
+                  "U1", f.qual + "::data", "form body is urlencode(...)",
                   "form body is %s" % [unparse(x) for x in data], f.loc(r.ast))
     # nobody glues parameters by hand
     for name, mi in sorted(m.modules.items()):
